@@ -7,6 +7,10 @@ stated grammar is applied to it and the resulting bytes are executed on the four
     socket-unary / socket-stream : the real ``RpcServer.serve`` loop over a MemTransport (bytes written up-front,
                                    loop run to EOF in the calling thread)
     http-unary / http-stream     : the real WSGI app (``POST /{m}``, ``POST /{m}/init``)
+    shm-unary / shm-stream       : the socket loop again, but the request batch is routed through the shared-memory
+                                   side channel (a zero-row pointer batch with the DECLARED schema on the socket, the
+                                   perturbed batch in a client-owned segment): the columns the method would receive
+                                   are those of the resolved batch
 
 Every signature exists as a unary method ``u_<sig>`` and as a producer-stream method ``s_<sig>`` whose
 implementations append ``[name, {param: repr(value)}]`` to a log before doing anything else.
@@ -54,7 +58,8 @@ RULE = (
     "every non-identity column permutation, add a column (new name / 'ctx' / duplicate name; 3 types) at every "
     "position, drop each column, retype each column to each of 10 (quick) / 24 (thorough) other Arrow types, flip each "
     "nullable flag, null in every position (flag kept / flag set), unknown / case-changed enum member, field "
-    "metadata; thorough adds all pairs of non-structural perturbations on distinct columns; x 4 dispatch sites; "
+    "metadata; thorough adds all pairs of non-structural perturbations on distinct columns; x 4 dispatch sites + 2 "
+    "shm-routed socket sites (declared-schema pointer batch, perturbed batch in the segment); "
     "plus 8 exception classes raised by the method itself at 3 sites x 2 paths. "
     "Non-trivial class = (perturbation kind, declared column type, site, observed verdict)"
 )
@@ -316,6 +321,37 @@ def frame(method: str, cols: list[dict[str, Any]]) -> bytes:
     return buf.getvalue()
 
 
+def frame_shm(method: str, sname: str, cols: list[dict[str, Any]], seg: Any) -> tuple[bytes, int] | None:
+    """The same request routed through the shared-memory side channel (what a local client does for large requests):
+    a zero-row POINTER batch carrying the DECLARED schema goes down the socket, the (perturbed) batch itself sits in the
+    segment.  The columns the method would be called with are those of the resolved batch."""
+    from vgi_rpc.shm import make_shm_pointer_batch
+
+    fields = [pa.field(c["name"], c["type"], nullable=c["nullable"], metadata=c["meta"]) for c in cols]
+    schema = pa.schema(fields)
+    if not cols:
+        return None
+    batch = pa.RecordBatch.from_arrays([to_array(c) for c in cols], schema=schema)
+    placed = seg.allocate_and_write(batch)
+    if placed is None:
+        return None
+    off, length = placed
+    pschema = pa.schema([pa.field(n, t, nullable=nl) for n, t, nl in declared(sname)])
+    if len(pschema) == 0:
+        seg.free(off)
+        return None
+    pb, pcm = make_shm_pointer_batch(pschema, off, length)
+    md = {
+        b"vgi_rpc.method": method.encode(), b"vgi_rpc.request_version": b"1",
+        b"vgi_rpc.shm_segment_name": seg.name.encode(), b"vgi_rpc.shm_segment_size": str(seg.size).encode(),
+    }
+    md.update({k: v for k, v in pcm.items()})
+    buf = io.BytesIO()
+    with pa.ipc.new_stream(buf, pb.schema) as w:
+        w.write_batch(pb, custom_metadata=pa.KeyValueMetadata(md))
+    return buf.getvalue(), off
+
+
 def tick_stream() -> bytes:
     buf = io.BytesIO()
     e = pa.schema([])
@@ -437,7 +473,7 @@ def first_stream(data: bytes) -> dict[str, Any]:
 
 def run_site(env: dict[str, Any], site: str, method: str, req: bytes) -> dict[str, Any]:
     del LOG[:]
-    if site.startswith("socket"):
+    if site.startswith(("socket", "shm")):
         ct, st = mem.make_mem_pair()
         ct.writer.write(req + (TICK if site.endswith("stream") else b""))
         ct.writer.close()
@@ -465,6 +501,7 @@ def run_site(env: dict[str, Any], site: str, method: str, req: bytes) -> dict[st
 
 
 SITES = ["socket-unary", "socket-stream", "http-unary", "http-stream"]
+SHM_SITES = ["shm-unary", "shm-stream"]  # socket dispatch, request batch resolved from a client-owned shm segment
 
 
 def judge(site: str, method: str, conf: bool, seen: dict[str, str] | None, r: dict[str, Any]) -> tuple[str, str | None]:
@@ -543,8 +580,34 @@ def supercase(ctx: Ctx, env: dict[str, Any], sname: str, kind: str, detail: str,
             nontrivial=(kind, col_t, site, verdict),
             outcome=(verdict, r["status"], None if r["error"] is None else r["error"]["type"]),
         )
+    for site in SHM_SITES:
+        method = ("u_" if site.endswith("unary") else "s_") + sname
+        try:
+            fr = frame_shm(method, sname, cols, env["shm"])
+        except (pa.ArrowInvalid, pa.ArrowTypeError, pa.ArrowNotImplementedError, ValueError, TypeError):
+            fr = None
+        if fr is None:
+            ctx.extra["shm_unframeable"] = ctx.extra.get("shm_unframeable", 0) + 1
+            continue
+        try:
+            r = run_site(env, site, method, fr[0])
+        finally:
+            try:
+                env["shm"].free(fr[1])
+            except Exception:  # noqa: BLE001 - the server may have released the region itself
+                pass
+        # A declared schema with dictionary (enum) columns travels through the segment WITHOUT a schema message: names,
+        # types and flags are then the pointer batch's (= declared) by construction and only the body comes from the
+        # payload, so a perturbation need not be visible at all: either complete outcome is accepted there (a crash, a
+        # dead serve loop or a half-answer still is not).
+        dict_decl = any(pa.types.is_dictionary(t) for _n, t, _f in declared(sname))
+        smode = "either" if (dict_decl and mode is False) else mode
+        verdict, prob = judge(site, method, smode, seen if smode is True else None, r)
+        if prob:
+            problems.setdefault(prob, []).append(site)
+        ctx.case(nontrivial=(kind, col_t, site, verdict), outcome=(site, verdict, None if r["error"] is None else r["error"]["type"]))
     for prob, sites in problems.items():
-        where = "all" if len(sites) == len(SITES) else "+".join(sites)
+        where = "all" if len(sites) >= len(SITES) else "+".join(sites)
         ctx.fail(
             f"{prob}:{kind}:{detail}:{where}",
             f"signature {sname} {ALL_SIGS[sname]}, perturbation {ops} (conforming={mode}): {prob} at {sites}",
@@ -596,8 +659,11 @@ def make_env() -> dict[str, Any]:
     from vgi_rpc.http._testing import make_sync_client
 
     logging.getLogger("vgi_rpc").setLevel(logging.CRITICAL)
+    from vgi_rpc.shm import ShmSegment
+
     g = globals()
     return {
+        "shm": ShmSegment.create(1 << 20),
         "sock": RpcServer(g["SigSvc"], g["SigImpl"](), server_id="srv"),
         "http": make_sync_client(RpcServer(g["SigSvc"], g["SigImpl"](), server_id="srv"), token_key=b"k" * 32),
     }
@@ -614,8 +680,25 @@ def check_declared(ctx: Ctx, env: dict[str, Any], sigs: list[str]) -> None:
                 ctx.fail(f"declared-schema-differs-from-docs:{sname}", f"{pref}{sname}: server derived {got}, documented mapping gives {want}", None)
 
 
+def drop_env(env: dict[str, Any]) -> None:
+    seg = env.get("shm")
+    if seg is not None:
+        for fn in (seg.unlink, seg.close):
+            try:
+                fn()
+            except Exception:  # noqa: BLE001
+                pass
+
+
 def run(ctx: Ctx) -> None:
     env = make_env()
+    try:
+        _run(ctx, env)
+    finally:
+        drop_env(env)
+
+
+def _run(ctx: Ctx, env: dict[str, Any]) -> None:
     sigs = list(SIGS_QUICK) if ctx.quick else list(ALL_SIGS)
     ctx.extra.update({"signatures": len(sigs) if ctx.shard[0] == 0 else 0, "perturbations": 0, "unframeable": 0, "conforming_cases": 0})
     check_declared(ctx, env, sigs)
@@ -638,7 +721,10 @@ def run(ctx: Ctx) -> None:
 def replay(ctx: Ctx, case: dict[str, Any]) -> None:
     ctx.extra.update({"unframeable": 0, "conforming_cases": 0})
     env = make_env()
-    if case["t"] == "boom":
-        boomcase(ctx, env, case["kind"])
-    else:
-        supercase(ctx, env, case["sig"], case["kind"], case["detail"], case["ops"])
+    try:
+        if case["t"] == "boom":
+            boomcase(ctx, env, case["kind"])
+        else:
+            supercase(ctx, env, case["sig"], case["kind"], case["detail"], case["ops"])
+    finally:
+        drop_env(env)
